@@ -440,14 +440,13 @@ def r01e(ctx):
         ctx.report("R01e", f, f.node, "map shift after delete", "positions after the deleted item are not shifted by exactly one")
     # insert_map_once / _erase_map_once: juska = before + repeated ; shift = ±repeated
     g = m.functions["insert_map_once"]
-    src = {ast.unparse(n) for n in walk_no_nested(g.node) if isinstance(n, (ast.Assign, ast.ListComp))}
-    ok = any("before + repeated" in s for s in src) and any("x + repeated" in s for s in src)
+    from ..shape import has
+    ok = has(g.node, "J_ = B_ + R_") and has(g.node, "[X_ + R_ for X_ in M_[I_:]]") and has(g.node, "R_ = R_ or 1")
     ctx.instance("R01e", f"{g.file}:{g.ident}", "new run ends at before + repeated; later runs shift by +repeated", ok=ok, nontrivial=True)
     if not ok:
         ctx.report("R01e", g, g.node, "insert_map_once arithmetic", "insert_map_once no longer ends the new run at before + repeated / shifts later runs by repeated")
     h = m.functions["_erase_map_once"]
-    src = {ast.unparse(n) for n in walk_no_nested(h.node) if isinstance(n, (ast.Assign, ast.ListComp))}
-    ok = any("current - before" in s for s in src) and any("x - repeated" in s for s in src)
+    ok = has(h.node, "R_ = C_ - B_") and has(h.node, "M_[:I_] + [X_ - R_ for X_ in M_[I_ + 1:]]")
     ctx.instance("R01e", f"{h.file}:{h.ident}", "erased run length = current - before; later runs shift by -length", ok=ok, nontrivial=True)
     if not ok:
         ctx.report("R01e", h, h.node, "_erase_map_once arithmetic", "_erase_map_once no longer removes exactly the length of the erased run")
